@@ -6,6 +6,9 @@ from . import tlc
 SMOKE = [
     ('TimexMech', 'MC_Timex_smoke.cfg', None),
     ('TimexMech', 'MC_Timex_prefix.cfg', 'MechContract'),
+    ('ConstraintCollapse', 'MC_Collapse.cfg', None),
+    ('ConstraintCollapse', 'MC_Collapse_prefix.cfg', 'NoGrowth'),
+    ('MC_Calendar', 'MC_Calendar_smoke.cfg', None),
 ]
 
 
